@@ -41,7 +41,7 @@ pub fn parse_out(out: &Value) -> Prog {
             Some("t") => {
                 let kind = parts.next().unwrap_or("").to_string();
                 let rest = parts.next().unwrap_or("");
-                let mut f = rest.split('\u{1}');
+                let mut f = rest.split('|');
                 let spell = f.next().unwrap_or("").to_string();
                 let extra: Vec<String> = f.map(|x| x.to_string()).collect();
                 toks.push(Tok { kind, spell, extra });
